@@ -105,6 +105,39 @@ def exception_part(rep, repo, clauses=None):
             rep.errors.append("exception class %s: %s" % (ci.name, e))
 
 
+def exception_battery(rep, root, stages):
+    """bounded: every MPilotError subclass constructed with arguments of the kinds its callers pass, and rendered (runner/run_exceptions.py)"""
+    import os
+    import subprocess
+    import tempfile
+    from . import replay
+
+    out = tempfile.mktemp(suffix=".exc.json", dir=replay.workdir())
+    p = subprocess.run([replay.VENV_PY, os.path.join(replay.HERE, "runner", "run_exceptions.py"), out, root], capture_output=True, text=True, timeout=600)
+    try:
+        d = json.load(open(out))
+    except Exception:
+        rep.errors.append("exception battery: %s" % p.stderr[-300:])
+        return {"name": "error-classes", "evaluations": 0, "distinct_nontrivial": 0, "failures": 0}
+    finally:
+        try:
+            os.unlink(out)
+        except OSError:
+            pass
+    if isinstance(d, dict):
+        rep.errors.append("exception battery: %s" % d.get("harness_error", "")[-300:])
+        return {"name": "error-classes", "evaluations": 0, "distinct_nontrivial": 0, "failures": 0}
+    fails = 0
+    for r in d:
+        bad = [f for f in r["failures"] if f["stage"] in stages]
+        if bad:
+            fails += 1
+            rep.violations.append({"obligation": "%s::%s/bounded:%s" % (r["module"].replace(".", "/") + ".py", r["cls"], bad[0]["stage"]), "function": r["cls"],
+                                   "how": "bounded-concrete", "case": {"exception_class": r["cls"], "module": r["module"], "arguments": bad[0]["args"]},
+                                   "real": bad[:3], "violated": sorted(set(f["stage"] for f in bad)), "confirmed": True})
+    return {"name": "error-classes", "evaluations": sum(r["cases"] for r in d), "distinct_nontrivial": sum(r["cases"] for r in d), "failures": fails, "classes": len(d)}
+
+
 def parser_part(rep, repo, clauses):
     from . import parseprops
 
@@ -197,6 +230,7 @@ def load_property(prop, tier, seed, REPO):
         cases = L.cli_cases(repo)
         outs = L.run_real(cases, root, workers=8)
         parts.append(battery(rep, "cli", cases, outs, L.judge_cli, {"cli", "raises_only"}, "mpilot/cli/mpilot.py::main"))
+        parts.append(exception_battery(rep, root, {"construct", "str"}))
         rule = ("every command x parameter (incl. Metadata) x a 28-value alphabet of every kind (thorough: all; quick: 9 sampled per parameter), five EEMS 2.0 forms without a "
                 "result name x the same alphabet where a name is expected, 17 CSV contents (empty, "
                 "header only, ragged, non-numeric, empty cells, missing column, CRLF, BOM, nan/inf, overflow) x 3 models, single-token corruptions of valid programs loaded "
@@ -250,4 +284,5 @@ def lineno_parts(rep, root, repo, tier, seed):
     cases = L.cmdline_cases()
     outs = L.run_real(cases, root, workers=8)
     parts.append(battery(rep, "command-lines", cases, outs, L.judge_cmdline, {"lineno"}, "mpilot/program.py::Program.from_source+run"))
+    parts.append(exception_battery(rep, root, {"lineno"}))
     return parts
